@@ -113,13 +113,13 @@ func families() []family {
 			api.AssertIsEqual(api.Add(s[0], s[1], s[2]), p[0])
 			return nil
 		}},
-		{name: "emulated", nP: 1, nS: 2, def: func(api frontend.API, p, s []frontend.Variable) error {
+		{name: "emulated", nP: 1, nS: 8, def: func(api frontend.API, p, s []frontend.Variable) error {
 			f, err := emulated.NewField[emulated.Secp256k1Fp](api)
 			if err != nil {
 				return err
 			}
-			a := f.NewElement(s[0])
-			b := f.NewElement(s[1])
+			a := f.NewElement(s[0:4])
+			b := f.NewElement(s[4:8])
 			c := f.Mul(a, b)
 			d := f.Add(c, a)
 			e := f.Mul(d, d)
@@ -151,8 +151,6 @@ func families() []family {
 				api.AssertIsDifferent(cm, s[2])
 				return nil
 			}, s[2], p[0])
-			rc := rangecheck.New(api)
-			rc.Check(s[1], 8)
 			return nil
 		}},
 		{name: "gkr", nP: 0, nS: 4, def: func(api frontend.API, p, s []frontend.Variable) error {
@@ -176,13 +174,13 @@ func families() []family {
 			}
 			return sol.Verify(gkrreg.Name)
 		}},
-		{name: "ext2-constants", nP: 1, nS: 2, def: func(api frontend.API, p, s []frontend.Variable) error {
+		{name: "ext2-constants", nP: 1, nS: 8, def: func(api frontend.API, p, s []frontend.Variable) error {
 			e, err := emulated.NewField[emulated.BN254Fp](api)
 			if err != nil {
 				return err
 			}
 			ext := fields_bn254.NewExt2(api)
-			a := fields_bn254.E2{A0: *e.NewElement(s[0]), A1: *e.NewElement(s[1])}
+			a := fields_bn254.E2{A0: *e.NewElement(s[0:4]), A1: *e.NewElement(s[4:8])}
 			b := ext.MulByNonResidue1Power2(&a)
 			c := ext.Mul(b, &a)
 			api.AssertIsEqual(e.ToBits(e.Reduce(&c.A0))[0], p[0])
